@@ -31,7 +31,7 @@ def callee_path(ci):
 
 
 class TermCx:
-    def __init__(self, prog, fn, argsub=None, depth=0, inline=True):
+    def __init__(self, prog, fn, argsub=None, depth=0, inline=True, frames=()):
         self.prog = prog
         self.fn = fn
         self.argsub = argsub  # dict local index -> term (for inlined callees)
@@ -40,6 +40,12 @@ class TermCx:
         self.memo = {}
         self.busy = set()
         self.track_mut = True
+        self.frames = frames  # call-site frames of the inlining stack: distinguishes executions of one callee site
+
+    def site(self, bb):
+        if self.frames:
+            return ("inl", self.frames, self.fn.key, bb)
+        return (self.fn.key, bb)
 
     # ---- places / operands ----
     def operand(self, op):
@@ -100,7 +106,7 @@ class TermCx:
             if d[0] == "assign":
                 terms.append(self.rvalue(d[3], (self.fn.key, d[1], d[2])))
             else:
-                terms.append(self.call(d[2], (self.fn.key, d[1])))
+                terms.append(self.call(d[2], self.site(d[1])))
         partial = [d for d in ds if d[0] in ("partial", "partialcall")]
         if partial and len(terms) <= 1:
             # a value built field by field, or a struct with an overwritten field; reads of the value inside the
@@ -115,7 +121,7 @@ class TermCx:
                         continue  # write through a pointer: tracked at the pointee (mutations)
                     upd.append((proj_key(s["place"]["p"]), self.rvalue(s["rv"], (self.fn.key, d[1], d[2]))))
                 else:
-                    upd.append((proj_key(d[2]["dest"]["p"]), self.call(d[2], (self.fn.key, d[1]))))
+                    upd.append((proj_key(d[2]["dest"]["p"]), self.call(d[2], self.site(d[1]))))
             del self.memo[l]
             t = ("updated", base, tuple(upd)) if upd else base
         elif len(terms) == 1:
@@ -130,6 +136,8 @@ class TermCx:
                     uniq.append(x)
             t = uniq[0] if len(uniq) == 1 else ("phi", (self.fn.key, l), tuple(uniq))
         muts = self.fn.mutations().get(l) if self.track_mut else None
+        if muts and self.fn.local_ty(l).replace("&mut ", "").replace("&", "").strip() in (self.fn.j.get("generics") or ()):
+            muts = None  # a value of an opaque type parameter (the caller's rng): its internal state is not modelled
         if muts:
             ops = []
             for (bb, term, idx) in muts:
@@ -138,7 +146,7 @@ class TermCx:
                 if ci and (ci.get("trait") or "").endswith("::Iterator"):
                     continue  # consuming an iterator is not an update of a collection
                 others = tuple(self.operand(a) for j, a in enumerate(term["args"]) if j != idx)
-                ops.append(("op", nm, others, (self.fn.key, bb)))
+                ops.append(("op", nm, others, self.site(bb)))
             if ops:
                 t = ("mut", t, tuple(ops))
         self.busy.discard(l)
@@ -226,7 +234,7 @@ class TermCx:
             if len(fs) == 1 and simple_wrapper(fs[0]):
                 f = fs[0]
                 sub = {i + 1: a for i, a in enumerate(args)}
-                cx = TermCx(self.prog, f, sub, self.depth + 1)
+                cx = TermCx(self.prog, f, sub, self.depth + 1, frames=self.frames + (site,))
                 return cx.local(0)
         return ("call", path, args, site, ci.get("self_ty") if tr else None)
 
